@@ -58,6 +58,16 @@ pub(crate) fn stub_tr_dispatch<'a: 'a>(_m: &'static tracing::Metadata<'static>, 
 // ------------------------------------------------------------------------------------------------
 // reference decoding, independent of nom
 
+/// The received datagram `arr[..len]` as a BytesMut whose heap block has the CONCRETE size N
+/// (copy of the whole array, then truncate): a block of symbolic size is an unbounded array for CBMC
+/// and the array-theory post-processing of be_packet's reads ran out of 10 GB.
+fn datagram_of<const N: usize>(arr: &[u8; N], len: usize) -> BytesMut {
+    let mut d = BytesMut::from(&arr[..]);
+    d.truncate(len);
+    assert!(d.len() == len);
+    d
+}
+
 fn any_input<const N: usize>() -> ([u8; N], usize) {
     let arr: [u8; N] = kani::any();
     let len: usize = kani::any();
@@ -786,7 +796,7 @@ fn ref_packet<const N: usize>(a: &[u8; N], len: usize, dcid_len: usize) -> RefPk
 
 /// Run the real be_packet on `arr[..len]` and compare with the reference.
 fn packet_case<const N: usize>(arr: &[u8; N], len: usize, dcid_len: usize, reference: RefPkt) {
-    let mut datagram = BytesMut::from(&arr[..len]);
+    let mut datagram = datagram_of(arr, len);
     let r = be_packet(&mut datagram, dcid_len);
     let left = datagram.len();
     match r {
@@ -924,7 +934,7 @@ fn p_payload<const N: usize>() {
     let k: u8 = kani::any();
     kani::assume(k < 3);
     let pkty = type_of(RefTy::V1(k));
-    let mut datagram = BytesMut::from(&arr[..len]);
+    let mut datagram = datagram_of(&arr, len);
     let r = be_payload(pkty, &mut datagram, remain_len);
     let left = datagram.len();
     let reference = match ref_varint(&arr, at, len) {
@@ -1027,7 +1037,7 @@ fn c03_pkt_packet_cid_too_large_pending() {
     let (arr, len) = any_input::<8>();
     let reference = ref_packet(&arr, len, 8);
     kani::assume(reference == RefPkt::CidTooLarge);
-    let mut datagram = BytesMut::from(&arr[..len]);
+    let mut datagram = datagram_of(&arr, len);
     let r = be_packet(&mut datagram, 8);
     // the datagram must be dropped with an error, not panic
     assert!(r.is_err(), "over-long connection id: packet dropped");
@@ -1055,7 +1065,7 @@ fn c03_pkt_reader_progress() {
     let reference = ref_packet(&arr, len, dcid_len);
     kani::assume(reference != RefPkt::CidTooLarge);
     kani::assume(!is_vn_with_cids(&arr, len)); // c03_pkt_packet_vn
-    let mut reader = PacketReader::new(BytesMut::from(&arr[..len]), dcid_len);
+    let mut reader = PacketReader::new(datagram_of(&arr, len), dcid_len);
     match reader.next() {
         None => {
             assert!(len == 0, "a non-empty datagram always yields an item");
